@@ -30,6 +30,39 @@ def validate(ctx, n_cases):
         lines.append(f"np complement {tot} {fl(sub)}"); impls.append(fl(get_inverse_indices(tot, sub))); cases.append(("complement", tot, sub.tolist()))
         c = rng.integers(-5, 6, size=int(rng.integers(0, 8)))
         lines.append(f"np cumsum {fl(c)}"); impls.append(fl(np.cumsum(c))); cases.append(("cumsum", c.tolist()))
+    # Python / NumPy indexing (Model/PySlice.lean): exhaustive over lengths 0..4 and every bound / index in -6..6 or None
+    def ob(v):
+        return "none" if v is None else str(v)
+
+    def run(f):
+        try:
+            return f()
+        except ValueError:
+            return "err=value"
+        except IndexError:
+            return "err=index"
+    bounds = [None] + list(range(-6, 7))
+    for n in range(0, 5):
+        a = np.arange(10, 10 + n)
+        for s in bounds:
+            for e in bounds:
+                lines.append(f"np getslice {fl(a)} {ob(s)} {ob(e)}"); impls.append(fl(a[s:e])); cases.append(("getslice", n, s, e))
+                for m in (0, 1, 2, 3):
+                    v = np.arange(50, 50 + m)
+
+                    def setsl():
+                        b = a.copy()
+                        b[s:e] = v
+                        return fl(b)
+                    lines.append(f"np setslice {fl(a)} {ob(s)} {ob(e)} {fl(v)}"); impls.append(run(setsl)); cases.append(("setslice", n, s, e, m))
+        for i in range(-6, 7):
+            lines.append(f"np getitem {fl(a)} {i}"); impls.append(run(lambda: str(int(a[i])))); cases.append(("getitem", n, i))
+
+            def setit():
+                b = a.copy()
+                b[i] = 77
+                return fl(b)
+            lines.append(f"np setitem {fl(a)} {i} 77"); impls.append(run(setit)); cases.append(("setitem", n, i))
     bad = ctx.diff_model(lines, impls, cases, what="NumPy primitive model != NumPy")
     ctx.hist["numpy_primitive_cases"] += len(lines)
     ctx.extra["numpy_primitives_validated"] = len(lines) - bad
